@@ -347,7 +347,16 @@ pub fn doc_opts_for(tier: Tier, rng: &mut Rng) -> DocOpts {
     d.pay.boundary_pct = *rng.pick(&[0u64, 5, 20]);
     d.pay.max_len = match tier {
         Tier::Quick => *rng.pick(&[24usize, 300, 300, 16385]),
-        Tier::Thorough => *rng.pick(&[24usize, 300, 16385, 65537]),
+        Tier::Thorough => {
+            if rng.chance(1, 300) {
+                // the 2^21 size-field boundary: rare, a run with such payloads costs milliseconds
+                d.pay.boundary_pct = 30;
+                d.max_nodes = d.max_nodes.min(8);
+                2_097_153
+            } else {
+                *rng.pick(&[24usize, 300, 16385, 65537])
+            }
+        }
     };
     d
 }
